@@ -195,6 +195,23 @@ def add_clause(b, kw, rest, path, ln):
         b.mode = rest
     elif kw == 'requires':
         b.requires.append(rest)
+    elif kw == 'ensures-shift':
+        # 'ensures-shift <D> <clause>': the clause is the substitution instance gi -> gi + D of the D == 0 clause (same
+        # template text); it is assumed when the function is replaced and only the D == 0 instance is enforced --
+        # the ghost index gi is arbitrary, so proving the clause for gi proves it for gi + D
+        d, _, rest2 = rest.partition(' ')
+        m = TAG_RE.match(rest2)
+        tags = set(m.group(1).split()) if m else {'support'}
+        text = rest2[m.end():] if m else rest2
+        b.ensures.append((tags, text, int(d)))
+        b.tags |= tags
+    elif kw == 'ensures-derived':
+        # a clause that follows from the enforced clauses by a stand-alone lemma (named in the comment of the block):
+        # assumed when the function is replaced, not enforced against the body
+        m = TAG_RE.match(rest)
+        tags = set(m.group(1).split()) if m else {'support'}
+        b.ensures.append((tags, rest[m.end():] if m else rest, -1))
+        b.tags |= tags
     elif kw == 'ensures':
         m = TAG_RE.match(rest)
         tags = set(m.group(1).split()) if m else {'support'}
@@ -245,6 +262,8 @@ def add_clause(b, kw, rest, path, ln):
         b.recursive = True
     elif kw == 'cap':
         b.cap = int(rest)
+    elif kw == 'canarycap':
+        b.canarycap = int(rest)
     elif kw == 'abstable':
         # abstable <abstract function> <operand struct> <operand harness variable>
         b.abstable = getattr(b, 'abstable', []) + [rest.split()]
@@ -288,12 +307,15 @@ def load_blocks():
     return out
 
 
-def clause_lines(b):
+def clause_lines(b, enforce=True):
     """function-level __CPROVER clauses, one per line (line numbers identify postconditions)"""
     out = []
     for r in b.requires:
         out.append(('requires', None, '__CPROVER_requires(%s)' % r))
-    for tags, e in b.ensures:
+    for ent in b.ensures:
+        tags, e = ent[0], ent[1]
+        if len(ent) > 2 and ent[2] != 0 and enforce:
+            continue
         out.append(('ensures', tags, '__CPROVER_ensures(%s)' % e.replace('ret', '__CPROVER_return_value')
                     if False else '__CPROVER_ensures(%s)' % re.sub(r'\bret\b', '__CPROVER_return_value', e)))
     if b.assigns is not None:
@@ -552,7 +574,7 @@ def gen_c(b, blocks, path):
         out.append('/* %s:%s-%s */' % (fi.src[0], fi.src[1], fi.src[2]))
         out.append(fi.sig)
         if cb is not None and (fi.cname == b.fn or fi.cname in b.replace_eff):
-            for kind, tags, text in clause_lines(cb):
+            for kind, tags, text in clause_lines(cb, enforce=(fi.cname == b.fn)):
                 out.append('  ' + text)
                 linemap[len(out)] = (fi.cname, kind, tags, text)
         out.append('{')
@@ -1034,7 +1056,8 @@ def run_block(r, blocks, keep=False, verbose=False):
     if r.status == 'proved':
         rc, out, err, dt = sh(['goto-cc', '--function', hname,
                                '-DBS_CANARY()=__CPROVER_assert(0, "[canary] end of harness reachable")',
-                               '-DBS_SMALLGRID=1', '-DBS_CAP=8UL', '-DBS_OPAQUE_MUL=1'] + [d for d in defs if d != '-DBS_OPAQUE_MUL'] +
+                               '-DBS_SMALLGRID=1', '-DBS_CAP=%dUL' % getattr(b, 'canarycap', getattr(b, 'cap', 8)), '-DBS_OPAQUE_MUL=1'] +
+                              [d for d in defs if d != '-DBS_OPAQUE_MUL'] +
                               ['-o', base + '.c.gb', cfile], 120)
         # the canary run is a small instance too: no loop contracts (loops unwound), multiplication opaque
         if b.kind == 'lemma':
